@@ -455,7 +455,8 @@ pub(crate) mod kani_verif {
         let seed = Seed::<HF>::default();
         let r = hss_keygen::<HF>(&params, &seed, None);
         assert!(r.is_ok() == within, "accepted iff the list is within the limits of this build; otherwise an error, never a panic");
-        kani::cover!(within, "accepted list reachable");
+        // covers are written as `!applicable || condition` (a list longer than the level limit is never accepted)
+        kani::cover!(L > MAX_ALLOWED_HSS_LEVELS || within, "accepted list reachable");
         kani::cover!(!within, "refused list reachable");
     }
     macro_rules! limits_harness {
